@@ -783,7 +783,14 @@ def l3_l4_worker(cc, sdir, wid, master, start, step, families, deadline):
                 except subprocess.TimeoutExpired:
                     cls, detail = "scope-hang", "program did not finish"
         if cls and len(res["viol"]) < 3:
-            res["viol"].append(("l3 class=" + cls, seed, {"engine": "histsim-l3", "seed": seed, "source": src}, detail + "\n" + "\n".join(src.splitlines()[:40])))
+            # guard against a wrong model: the reference compiler must accept the program and agree with the model
+            g = subprocess.run(["gcc", "-w", "-o", exe + ".ref", cfile], stdout=subprocess.PIPE, stderr=subprocess.STDOUT)
+            gx = subprocess.run([exe + ".ref"]).returncode if g.returncode == 0 else -1
+            if gx != 0:
+                res["viol"].append(("HARNESS", seed, {"engine": "histsim-l3", "seed": seed, "source": src},
+                                    "level 3 generator/model problem: gcc %s for the same program" % ("rejects it" if g.returncode else "also reports a wrong binding (exit %d)" % gx)))
+            else:
+                res["viol"].append(("l3 class=" + cls, seed, {"engine": "histsim-l3", "seed": seed, "source": src}, detail + "\n" + "\n".join(src.splitlines()[:40])))
     shutil.rmtree(wd, ignore_errors=True)
     return res
 
@@ -800,6 +807,9 @@ def level34(cc, sdir, master, families, rep, stats, seconds):
         hashes |= r["hashes"]
         samples += r["samples"]
         for ident, seed, plan, text in r["viol"]:
+            if ident == "HARNESS":
+                rep.harness_error("seed %d: %s" % (seed, text))
+                continue
             plan["property"] = PROP
             rp = save_replay(PROP, seed, plan)
             rep.violation(ident + " id=%s" % sha(plan["source"])[:6], rp, text)
